@@ -641,8 +641,9 @@ def run_program(fmt, prog, fresh=False):
     hs = {}
     pdump = None
     failed_phase = None
-    old = signal.signal(signal.SIGALRM, _alarm)
-    signal.setitimer(signal.ITIMER_REAL, 60)
+    # non-termination guard: 30 s of CPU time of this process (load independent) for one program (~10 ms)
+    old = signal.signal(signal.SIGPROF, _alarm)
+    signal.setitimer(signal.ITIMER_PROF, 30)
     tt = None
     try:
         tt = tree.transform()
@@ -705,9 +706,9 @@ def run_program(fmt, prog, fresh=False):
             except Hang:
                 failed_phase = "hang"
                 res["status"] = "hang"
-                vio("hang:no-termination-within-60s")
+                vio("hang:no-termination-within-30s-cpu")
         finally:
-            signal.setitimer(signal.ITIMER_REAL, 0)
+            signal.setitimer(signal.ITIMER_PROF, 0)
             try:
                 tt.finalize()
             except Exception as e:  # noqa
@@ -716,8 +717,8 @@ def run_program(fmt, prog, fresh=False):
                         after=res["status"])
                 w["dirty"] = True
     finally:
-        signal.setitimer(signal.ITIMER_REAL, 0)
-        signal.signal(signal.SIGALRM, old)
+        signal.setitimer(signal.ITIMER_PROF, 0)
+        signal.signal(signal.SIGPROF, old)
     del tt
     snap = mwt.dir_snapshot(w["work"])
     if res["status"] == "misuse":
